@@ -143,6 +143,20 @@ struct Op {
   std::vector<size_t> perm;                      // P
 };
 
+static std::string tok(const std::string& x) { return x.empty() ? "-" : x; }
+static std::string ser(const Op& o) {
+  std::ostringstream s; s << o.tag << " " << o.i << " " << o.j << " " << o.file << " " << o.kind << " " << o.arg << " " << o.wkind << " " << o.keyid << " "
+    << tok(o.key) << " " << tok(o.sval) << " " << o.isint << " " << o.ival << " " << o.valid << " " << o.order << " " << o.nknots << " " << o.dim << " " << o.nk << " " << o.perm.size();
+  for (auto p : o.perm) s << " " << p;
+  return s.str();
+}
+static Op deser(const std::string& line) {
+  std::istringstream s(line); Op o; size_t np = 0; s >> o.tag >> o.i >> o.j >> o.file >> o.kind >> o.arg >> o.wkind >> o.keyid >> o.key >> o.sval >> o.isint >> o.ival >> o.valid >> o.order >> o.nknots >> o.dim >> o.nk >> np;
+  if (o.key == "-") o.key.clear(); if (o.sval == "-") o.sval.clear();
+  o.perm.resize(np); for (size_t k = 0; k < np; k++) s >> o.perm[k];
+  return o;
+}
+
 static const int NSLOT = 3;
 static CT* slot[NSLOT];
 static std::vector<FileInfo> files;
@@ -304,7 +318,7 @@ static Op gen_op(Rng& r, int nconv) {
 }
 
 // ------------------------------------------------------------------ one run of a sequence
-static FILE *fc, *fi;
+static FILE *fc, *fi, *fops = nullptr;
 struct Variant { long seq; long fail; int rfop, rfkind, rfarg; };
 
 static void reset_world() {
@@ -320,7 +334,7 @@ static long run_variant(const Variant& v, std::vector<Op>& ops, Rng* gen, int no
   fprintf(fc, "S %ld %ld %d %d %d\n", v.seq, v.fail, v.rfop, v.rfkind, v.rfarg); fprintf(fi, "S\n");
   int nconv = 0; long total = 0;
   for (int k = 0; k < nops; k++) {
-    if (gen) ops.push_back(gen_op(*gen, nconv));
+    if (gen) { ops.push_back(gen_op(*gen, nconv)); if (fops) { fprintf(fops, "%s\n", ser(ops.back()).c_str()); fflush(fops); } }
     if (!keep.empty() && (k >= (int)keep.size() || keep[k] != '1')) continue;
     Op o = ops[k];
     if (k == v.rfop && (o.tag == 'R' || o.tag == 'M' || o.tag == 'F')) { o.kind = v.rfkind; o.arg = v.rfarg; }
@@ -353,6 +367,20 @@ static long run_variant(const Variant& v, std::vector<Op>& ops, Rng* gen, int no
   return G.nalloc;
 }
 
+// The stacking constructor is not part of the modelled operation set; this fixed history checks its ledger only.
+static void stack_test(const std::string& dir) {
+  std::string p = dir + "/stackbase.fits";
+  { psv::Table t; std::vector<uint32_t> ord{2}; std::vector<std::vector<double>> kn{{0, 1, 2, 3, 4, 5, 6, 7}}; std::vector<float> coef(5, 1.f);
+    psv::build_table(t, ord, kn, coef); t.write_fits(p); }
+  reset_world();
+  std::string res = "ok";
+  try { CT a(p), b(p), c(p); std::vector<CT*> v{&a, &b, &c}; std::vector<double> x{0, 1, 2}; CT s(v, x, 2); if (s.get_ndim() != 2) res = "wrong"; }
+  catch (std::exception&) { res = "threw"; }
+  fprintf(fc, "Y\n"); fprintf(fi, "STACK %s %zu %zu %ld\n", res.c_str(), G.live.size(), G.bytes(), G.bad);
+  for (auto& q : G.live) free(q.first);
+  G.live.clear();
+}
+
 int main(int argc, char** argv) {
   if (argc < 7) { fprintf(stderr, "usage\n"); return 2; }
   fc = fopen(argv[1], "w"); fi = fopen(argv[2], "w");
@@ -364,18 +392,19 @@ int main(int argc, char** argv) {
   long maxfail = psv::env_long("PSV_MAXFAIL", 100000);
   std::string keep = keepenv ? keepenv : "";
   long variants = 0;
+  if (!only && first == 0) stack_test(scratch);
   if (only) {
     Variant v; sscanf(only, "%ld %ld %d %d %d", &v.seq, &v.fail, &v.rfop, &v.rfkind, &v.rfarg);
-    // regenerate the history of that sequence (baseline, unlogged), then run the requested variant
-    FILE *kc = fc, *ki = fi; fc = fopen("/dev/null", "w"); fi = fopen("/dev/null", "w");
-    Rng r(seed * 1000003ULL + v.seq * 7 + 1); std::vector<Op> ops; int nops = 6 + (int)r.below(20);
-    run_variant(Variant{v.seq, 0, -1, 0, 0}, ops, &r, nops, "");
-    fc = kc; fi = ki;
+    // the history of that sequence as generated (and saved) by the full run: PSV_OPSFILE
+    std::vector<Op> ops; { std::ifstream f(getenv("PSV_OPSFILE") ? getenv("PSV_OPSFILE") : ""); std::string l; while (std::getline(f, l)) if (!l.empty()) ops.push_back(deser(l)); }
+    int nops = ops.size();
     run_variant(v, ops, nullptr, nops, keep);
     variants = 1;
   } else for (long s = first; s < first + nseq; s++) {
     Rng r(seed * 1000003ULL + s * 7 + 1); std::vector<Op> ops; int nops = 6 + (int)r.below(20);
+    fops = fopen((scratch + "/ops_" + std::to_string(s) + ".txt").c_str(), "w");
     long nalloc = run_variant(Variant{s, 0, -1, 0, 0}, ops, &r, nops, ""); variants++;
+    fclose(fops); fops = nullptr;
     stats["allocations_baseline"] += nalloc;
     for (long k = 1; k <= nalloc && k <= maxfail; k++) { run_variant(Variant{s, k, -1, 0, 0}, ops, nullptr, nops, ""); variants++; stats["alloc_failure_variants"]++; }
     for (int k = 0; k < nops; k++) if ((ops[k].tag == 'R' || ops[k].tag == 'M' || ops[k].tag == 'F') && ops[k].kind == 0) {
